@@ -181,6 +181,20 @@ def run_history(case):
             if abs(v2 - v1) > 1e-13 or abs(v1 - 1.0) > 1e-13:
                 bad(f"template/{tmpl.__name__}", "region created after plotting / inverting another region's default quadrature measures another volume", [v1, v2], [1.0, 1.0], 1e-13)
         return dict(viol=viol, states=len(nontrivial), transitions=ntrans, traces=len(nontrivial), nontrivial=nontrivial, outcomes=[f"object-histories={len(nontrivial)}"], sample=dict(case=key, schemes=len(specs)), digest=f"{len(nontrivial)}/{len(viol)}")
+    # every ordered pair of constructions over all scheme classes: the rule constructed FIRST is kept alive and looked at again
+    # after the second construction (region templates keep one rule object for the whole process)
+    specs = [("GaussLegendre", dict(order=1, dim=2)), ("GaussLegendre", dict(order=2, dim=3)), ("GaussLegendreBoundary", dict(order=1, dim=3)), ("GaussLobatto", dict(order=1, dim=2)),
+             ("GaussLobatto", dict(order=2, dim=3))] + [("Triangle", dict(order=o)) for o in (1, 2, 3, 5)] + [("Tetrahedron", dict(order=o)) for o in (1, 2, 3, 5)] + [("BazantOh", dict(n=21))]
+    for sa in specs:
+        for sb in specs:
+            qa = _make(sa)
+            Pa, Wa = np.array(qa.points, dtype=float, copy=True), np.array(qa.weights, dtype=float, copy=True)
+            _make(sb)
+            ntrans += 2
+            lab = f"{sa[0]}{sa[1]} then {sb[0]}{sb[1]}"
+            if not (np.array_equal(np.asarray(qa.points, float), Pa) and np.array_equal(np.asarray(qa.weights, float), Wa)):
+                bad(lab + "/first-changed", "constructing another rule changed the points / weights of an existing rule object", dict(points=float(np.abs(np.asarray(qa.points, float) - Pa).max()), weight_sum=float(np.sum(qa.weights))), "unchanged")
+            nontrivial.append(lab)
     cfgs = [(o, d, pm) for o in (1, 2, 3, 4) for d in (1, 2, 3) for pm in (False, True)]
     for a in cfgs:
         for b in cfgs:
